@@ -5,7 +5,7 @@ CFG = {
     "rule": ("Font::save into a sandbox with sentinel files beside and above the target, the target absent / empty / another larger UFO / nested junk / a plain file / the font's "
              "own source: all 32 combinations of optional parts (lib, font info, extra layers, layer info, groups, kerning, features, data, images, guidelines) x API-built / loaded, "
              "240 random fonts with edit histories (store inserts/removes/gets, glyphs, layers, lib) over every pre-state, and crafted relative paths (store keys ../x, ../../x, ../../../x, ./a, q/../b, image key .., contents.plist values "
-             "../../x.glif and sub/../a.glif, a nested layer directory in layercontents.plist). Also: the target being a symbolic link to a populated directory, blank-only feature texts, empty-but-present containers (group without members, kerning entry without pairs, empty dict/array lib values), empty layers with colour or lib. Round 6: store files deleted / replaced by a directory / truncated on disk after the load and before any access (k of them), saved elsewhere and in place - a successful save writes exactly the keys the store reports, an error-state entry refuses with everything untouched; in-place targets through a symlinked parent / relative; a 1 MiB + 1 lazy file. Listing and content hashes of the whole sandbox before and after; every save repeated "
+             "../../x.glif and sub/../a.glif, a nested layer directory in layercontents.plist). Also: the target being a symbolic link to a populated directory, blank-only feature texts, empty-but-present containers (group without members, kerning entry without pairs, empty dict/array lib values), empty layers with colour or lib. Round 6: store files deleted / replaced by a directory / truncated on disk after the load and before any access (k of them), saved elsewhere and in place - a successful save writes exactly the keys the store reports, an error-state entry refuses with everything untouched; in-place targets through a symlinked parent / relative; a 1 MiB + 1 lazy file. Glyphs created through the raw `Layer::entry(..).or_insert_with` and then replaced by `insert_glyph` (new and existing names, API-built and loaded); the observation counts glyphs the containers report without a file name (NOFILE). Listing and content hashes of the whole sandbox before and after; every save repeated "
              "into a fresh path and compared byte for byte. non-trivial = target pre-populated or crafted path; distinct by recipe"),
     "exhaustive": {"quick": False, "thorough": False},
     "exhaustive_note": "the 32 part combinations x {API-built, loaded} and the 9 crafted path shapes are enumerated; fonts around them are sampled",
